@@ -16,7 +16,7 @@ import (
 func init() {
 	engines["fc"] = engineDef{
 		newEngine: func() Engine { return &fcEngine{} },
-		newGen:    func(r *RNG, tier string) Generator { return newFcGen(r, tier) },
+		newGen:    func(r *RNG, tier string, profile string) Generator { return newFcGen(r, tier) },
 	}
 }
 
